@@ -594,13 +594,14 @@ def oracle(case, settle_steps):
         q = case["final_queues"].get(k, [])
         pops = [m for how, m in case["delivery"].get(k, []) if how == "pop"]
         cbs = [m for how, m in case["delivery"].get(k, []) if how == "cb"]
-        n_inc_modes = {i["cb"] for i in case["incarnations"].get(k, [])}
-        if len(n_inc_modes) <= 1:
-            # the key is plain in all its incarnations, or callback in all: one global sequence
+        incs_k = case["incarnations"].get(k, [])
+        if len(incs_k) <= 1 or not any(i["cb"] for i in incs_k):
+            # one incarnation, or plain in all its incarnations: one global sequence
             ok = dl + q == sent or (infl is not None and infl[0] == k and dl + q == sent + [infl[1]])
         else:
-            # the key alternates between callback and plain incarnations: the queue path (pops ++ queue) and the
-            # callback path are each exactly-once and in order, and together they are exactly the sent sequence
+            # several incarnations, some with callbacks: a message sent while the key is being closed is queued and
+            # popped by a later incarnation, so only the two paths are ordered: the queue path (pops ++ queue) and
+            # the callback path are each exactly-once and in order, and together they are exactly the sent sequence
             ok = is_shuffle(sent, pops + q, cbs) or \
                 (infl is not None and infl[0] == k and is_shuffle(sent + [infl[1]], pops + q, cbs))
         if not ok:
